@@ -24,7 +24,7 @@ CHECKS = {
             'whole-family configs; differential oracle: gcc/g++ -O1 -S (javac -g:none class files) of output == of input, uncrustify exits 0',
             'Grammar-generated C programs, C++ translation units, Java classes and Objective-C root classes in random layouts and the ~330 corpus files that compile stand-alone are '
             'formatted under every whitespace / mod_ / cmt_ option singly at every enumerated or boundary value (thorough: all settings), '
-            'random multi-option draws and whole-family settings, and 250-1500 enumerated brace shapes (nestings of brace-less / braced if, for, while around an inner if, with and without else) run under the brace options; the object code gcc / g++ emits for the output must be byte-identical to '
+            'random multi-option draws and whole-family settings, 250-1500 enumerated brace shapes (nestings of brace-less / braced if, for, while around an inner if, with and without else, also with comments between header and body) run under the brace options, 51 programs of enumerated boolean-expression shapes under the parenthesis options, and every mod_ setting runs on a fixed Java and a fixed Objective-C program; the object code gcc / g++ emits for the output must be byte-identical to '
             'that for the input (for Java: the class files javac -g:none writes) and uncrustify must accept the program.',
             'gcc/g++ without -g emit no line information; generated programs avoid layout-dependent constructs; Java and Objective-C (clang, no Foundation) are '
             'compiled for generated programs only; mod_infinite_loop values that introduce `true` are not applied to C inputs.', 'DESIGN.md §3 C01'),
@@ -39,14 +39,14 @@ CHECKS = {
             'Preprocessor groups, dangling-else shapes, bare blocks as bodies and class / namespace bodies are kept out so that the '
             'depth annotation is exact; continuation lines, comments and parenthesised text are not judged.', 'DESIGN.md §3 C18'),
     'C19': ('exploration', 'exhaustive sweep sp_ option x 4 values over a corpus slice + random joint assignments over the corpus and generated '
-            'C / C++ programs; oracle: hook record (rule, value, forced) vs configured value, gap measured in the output bytes',
+            'C / C++ / Java programs; oracle: hook record (rule, value, forced) vs configured value, gap measured in the output bytes',
             'Every add/remove/force spacing option is set to each of its four values over a multi-language corpus slice, and random joint '
             'assignments of all of them run over the whole corpus and generated programs; each spacing decision recorded by the hook with an '
             'option\'s name as its rule must carry that option\'s configured value (documented promotions aside) and the blanks found between '
             'the two tokens in the real output must obey it (force exactly one, add at least one, remove none unless the tokens would fuse, '
-            'ignore as in the input).',
+            'ignore as in the input, read from the input text).',
             'Trusts the hook record (last rule logged, value returned); options never attributed in a run are listed in the evidence; pairs '
-            'next to comments, line ends and virtual braces are not measured.', 'DESIGN.md §3 C19'),
+            'next to comments and line ends are not measured; a decision recorded behind a virtual brace is measured from the real token in front of it.', 'DESIGN.md §3 C19'),
     'C05': ('exploration', 'fixed universe C/C++ corpus x curated profiles (listed exceptions) + Hypothesis-generated C programs; fixed-point '
             'oracle f(f(x)) == f(x), f^3 == f^2, --check passes; second-pass acceptance for random configs',
             'Every C / C++ corpus file under the built-in default and the curated profiles in /verif/profiles (thorough: the whole '
@@ -60,16 +60,16 @@ CHECKS = {
     'C07': ('exploration', 'generated region contents x marker kinds x insertion points in generated and corpus programs; round-trip oracle on '
             'region lines + metamorphic opacity oracle (swap region content, compare the outside)',
             'One to three disabled regions with generated content (unbalanced brackets and quotes, comment openers, tabs, trailing blanks, '
-            'non-ASCII, runs of empty lines) are inserted before statement lines of generated C programs and corpus files of six '
+            'non-ASCII, line-final backslashes, runs of empty lines) are inserted before statement lines of generated C programs and corpus files of six '
             'languages, at file start, unterminated at EOF, or around a whole corpus file, with default / configured / regex / asm markers; '
             'the lines between the markers must come out byte-identical (whitespace-only lines emptied) and replacing the content must '
-            'leave the bytes before and after the region unchanged, under whitespace, blank-line and mod_ options.',
+            'leave the bytes before and after the region unchanged, under whitespace, blank-line and mod_ options and disable_processing_nl_cont.',
             'Markers are located by a tag inside the marker comment; \'$\' and \'#\' are kept out of the random alphabet (known findings '
             'K4-K6, replayed from regress/); several baseline weaknesses are ledgered by class (edge blank lines, suffix dependence).',
             'DESIGN.md §3 C07'),
     'C08': ('exploration', 'every corpus file + generated programs re-encoded LF / CRLF / CR / mixed x newlines setting; metamorphic '
             'commutation laws + terminator census of the output',
-            'For every corpus file (normalised to LF) and generated C programs, ten executions check: no foreign CR/LF under '
+            'For every corpus file (normalised to LF), generated C programs and corpus files that get a file header inserted from a file stored with LF / CRLF / CR, ten executions check: no foreign CR/LF under '
             'newlines=lf|crlf|cr, f(x, crlf|cr) equals f(x, lf) with the terminator substituted, f(conv(x), lf) equals f(x, lf) for CRLF, '
             'CR and per-line mixed conversions, auto reproduces a uniform input\'s terminator and the clear majority of a mixed one.',
             'Conversions convert every line break, also inside comments, continuations and literals; UTF-16 inputs are left to C09; the '
@@ -88,8 +88,8 @@ CHECKS = {
             'With blank lines injected at random line boundaries and file edges, the output may hold no run longer than nl_max between two '
             'code lines, must open and close with the number of breaks nl_start_of_file / nl_end_of_file (_min) determine (remove 0, force '
             'exactly min, add at least min) and must have no blank line after an opening / before a closing brace under eat_blanks_*; a '
-            'matrix nl_max 0..6 x 4 values x minima x edge counts is enumerated on a carrier.',
-            'Blank-line count options are clamped to nl_max (the statement\'s proviso) and stay at default when eat_blanks_* is judged; '
+            'matrix nl_max 0..6 x 4 values x minima x edge counts is enumerated on a carrier, and 352 enumerated C++ containers (namespace, class, struct, extern "C", function x first / last member kind) run under eat_blanks_* together with every blank-line count option that is not documented to override them.',
+            'Blank-line count options are clamped to nl_max (the statement\'s proviso) and stay at default when eat_blanks_* is judged on corpus files and random programs (on the enumerated containers they are set); '
             'exempt spans as in C17.', 'DESIGN.md §3 C20'),
     'C02': ('exploration', 'corpus universe x seeded whitespace configs + line-level mutants + Hypothesis-generated C programs (layout engine); '
             'round-trip oracle through an independent lexer and through the hook-dumped tokenizer view',
@@ -107,7 +107,7 @@ CHECKS = {
             'Comments (kind, text modulo the continuation-line layout the statement allows) and string / character / raw-string / '
             'header-name literals (byte-exact) of the input must reappear in the same order and number in the output, for the corpus, '
             'for generated C programs with comments of eight shapes in every trivia slot, and for literal carriers in eight languages '
-            'whose contents are drawn from newlines, tabs after spaces, quotes, comment openers and near-miss closing delimiters.',
+            'whose contents are drawn from newlines, tabs after spaces, quotes, comment openers, near-miss closing delimiters and 2- to 4-byte UTF-8, with every encoding prefix (L, u8, u, U) on raw and ordinary literals.',
             'cmt_*, sp_cmt_cpp_*, string_replace_tab_chars and header insertion stay at default as the statement requires; line '
             'terminators inside multi-line literals may follow the newlines option.', 'DESIGN.md §3 C03'),
     'C04': ('exploration', 'corpus + Hypothesis-generated C programs x random subsets of the mod_ options; metamorphic oracle: streams with '
@@ -116,7 +116,7 @@ CHECKS = {
             'token streams (independent lexer and tokenizer view) must be equal as sequences after removing the token kinds the enabled '
             'options document, each kind\'s count may change only in the documented direction, brackets stay balanced, and lines owned '
             'by the sort / de-duplicate options are compared as multisets of whole lines; enumerated brace shapes (single- and multi-line '
-            'conditions) run under the brace options incl. the chain and multi-line-condition guards.',
+            'conditions, comments between header and body) run under the brace options incl. the chain and multi-line-condition guards, enumerated boolean-expression shapes under the parenthesis options and 162 enumerated conditional groups under the #else / #endif comment options.',
             'Kinds and directions per option are a table written from the option documentation; mod_sort_oc_properties is outside '
             'the domain; program shapes for non-C languages come from the corpus only.', 'DESIGN.md §3 C04'),
     'C15': ('exploration', 'exhaustive option x value enumeration + seeded random configs; round-trip / idempotence / differential oracle',
